@@ -1172,3 +1172,129 @@ Theorem twin_nested_compile :
 Proof. exact TwinNested.twin_nested_compile. Qed.
 Print Assumptions twin_nested_compile.
 
+
+(* ---- nested in every control construct (TwinIf.v): twin_switch_step (the body of any case / default), twin_if_step / twin_elif_step /
+   twin_else_step; nest2 = the poryswitch at any depth of while / do-while / if / elif / else bodies and switch cases of a top-level
+   script; twin_nested2_program, twin_nested2_compile: the program with the poryswitch replaced by the tokens of its selected case has the
+   same shape and the SAME compile outcome (premise LC where a loop encloses the poryswitch: boundary B1). NOT proved: inline scripts
+   of mapscripts; all poryswitches at once (one application per poryswitch). ---- *)
+From Pory Require TwinIf. Open Scope list_scope.
+Theorem elifs_acc :
+  forall (av : list (text * autovar)) (sw : list (text * text)) (ee : bool) (pf : toks -> Parser.res (token * text * text * toks))
+    (c : list (text * text)) (script : text) (f : nat) (bs cs : list nat) (x : toks) (acc : list (bexp * list stmt)) 
+    (imp : impdata),
+  parse_elifs av sw ee pf c f script bs cs x acc imp =
+  (do (l, i, y) <- parse_elifs av sw ee pf c f script bs cs x [] imp0; Parser.Ok (acc ++ l, impadd imp i, y)).
+Proof. exact TwinIf.elifs_acc. Qed.
+Print Assumptions elifs_acc.
+
+Theorem cases_acc :
+  forall (av : list (text * autovar)) (sw : list (text * text)) (ee : bool) (pf : toks -> Parser.res (token * text * text * toks))
+    (c : list (text * text)) (script : text) (f : nat) (bs cs : list nat) (brace : token) (y : toks) (acc : list Parser.scase)
+    (seen : list text) (hd : bool) (imp : impdata),
+  parse_cases av sw ee pf c f script bs cs brace y acc seen hd imp =
+  (do (l, i, y1) <- parse_cases av sw ee pf c f script bs cs brace y [] seen hd imp0; Parser.Ok (acc ++ l, impadd imp i, y1)).
+Proof. exact TwinIf.cases_acc. Qed.
+Print Assumptions cases_acc.
+
+Theorem twin_nested2_block :
+  forall (av : list (text * autovar)) (sw : list (text * text)) (ee : bool) (pf : toks -> Parser.res (token * text * text * toks))
+    (c : list (text * text)),
+  Independence.format_advs pf ->
+  Independence.format_local pf ->
+  Independence.format_lt pf ->
+  forall (script : text) (z body ra rest : toks) (bsz csz : list nat) (scn : text) (sv : option text) (ts1 ts2 : toks) 
+    (F : nat) (cases : list (text * (list stmt * impdata))) (ss : list stmt) (imp' : impdata),
+  eof_ended z ->
+  curis PORYSWITCH z = true ->
+  poryswitch_header sw ee z = Parser.Ok (scn, sv, ts1) ->
+  5 * Datatypes.length z <= F ->
+  parse_pory_cases av sw ee pf c F script bsz csz (cur ts1) ts1 [] = Parser.Ok (cases, ts2) ->
+  pory_select cases sv = Some (ss, imp') ->
+  advs ts1 (body ++ ra) ->
+  TwinParse.srun av sw ee pf c script bsz csz (body ++ ra) ss imp' ra ->
+  advs ra ts2 ->
+  curis RBRACE ra = true \/ curis IDENT ra = true \/ curis INT ra = true ->
+  rest = adv ts2 ->
+  csz = [] \/ TwinParse.LC ra rest ->
+  Forall (fun n : nat => Datatypes.length z < n) bsz ->
+  Forall (fun n : nat => Datatypes.length z < n) csz ->
+  forall (x : toks) (f : nat) (start : token) (b : list stmt) (imp : impdata) (y : toks),
+  TwinIf.nest2 av sw ee pf c script z bsz csz true [] [] x ->
+  5 * Datatypes.length x + 3 <= f ->
+  parse_block av sw ee pf c f script [] [] start x [] imp0 = Parser.Ok (b, imp, y) ->
+  exists G : nat -> nat,
+    (forall a b0 : nat, G a = G b0 -> a = b0) /\
+    parse_block av sw ee pf c f script [] [] start (Independence.swap z (body ++ rest) x) [] imp0 =
+    Parser.Ok (map (Independence.g_stmt G) b, Independence.g_imp G imp, y).
+Proof. exact TwinIf.twin_nested2_block. Qed.
+Print Assumptions twin_nested2_block.
+
+Theorem twin_nested2_program :
+  forall (av : list (text * autovar)) (sw : list (text * text)) (ee : bool) (pf : toks -> Parser.res (token * text * text * toks)),
+  Independence.format_advs pf ->
+  Independence.format_local pf ->
+  Independence.format_lt pf ->
+  forall (T : toks) (f1 : nat) (st1 : pstate) (xs : toks) (g : bool) (t1 t2 t3 z : toks) (body ra : list token) (bsz csz : list nat)
+    (scn : text) (sv : option text) (ts1 ts2 : toks) (F : nat) (cases : list (text * (list stmt * impdata))) (ss : list stmt) 
+    (imp' : impdata) (p1 : program),
+  let c := pconsts st1 in
+  let name := tlit (cur t2) in
+  eof_ended T ->
+  Independence.tops_run av sw ee pf (5 * Datatypes.length T + 4) TwinProgram.st0 T f1 st1 xs ->
+  ttype (cur xs) = SCRIPT ->
+  scope_modifier true xs = Parser.Ok (g, t1) ->
+  expect_peek IDENT t1 = Some t2 ->
+  expect_peek LBRACE t2 = Some t3 ->
+  TwinIf.nest2 av sw ee pf c name z bsz csz true [] [] (adv t3) ->
+  curis PORYSWITCH z = true ->
+  poryswitch_header sw ee z = Parser.Ok (scn, sv, ts1) ->
+  5 * Datatypes.length z <= F ->
+  parse_pory_cases av sw ee pf c F name bsz csz (cur ts1) ts1 [] = Parser.Ok (cases, ts2) ->
+  pory_select cases sv = Some (ss, imp') ->
+  advs ts1 (body ++ ra) ->
+  TwinParse.srun av sw ee pf c name bsz csz (body ++ ra) ss imp' ra ->
+  advs ra ts2 ->
+  curis RBRACE ra = true \/ curis IDENT ra = true \/ curis INT ra = true ->
+  csz = [] \/ TwinParse.LC ra (adv ts2) ->
+  parse_program av sw ee pf T = Parser.Ok p1 ->
+  exists (U : list token) (p2 : program),
+    T = U ++ z /\
+    Datatypes.length (U ++ body ++ adv ts2) < Datatypes.length T /\
+    parse_program av sw ee pf (U ++ body ++ adv ts2) = Parser.Ok p2 /\ shape_program p1 = shape_program p2.
+Proof. exact TwinIf.twin_nested2_program. Qed.
+Print Assumptions twin_nested2_program.
+
+Theorem twin_nested2_compile :
+  forall (hl hd hs : N -> bool) (av : list (text * autovar)) (sw : list (text * text)) (ee : bool) (fc : fontcfg) (font : text) 
+    (ml : Z) (optimize : bool) (mpath : option text) (src : text) (f1 : nat) (st1 : pstate) (xs : toks) (g : bool) (t1 t2 t3 z : toks)
+    (body ra : list token) (bsz csz : list nat) (scn : text) (sv : option text) (ts1 ts2 : toks) (F : nat)
+    (cases : list (text * (list stmt * impdata))) (ss : list stmt) (imp' : impdata) (p1 : program),
+  let pf := parse_format fc font ml ee in
+  let T := lex hl hd hs src in
+  let c := pconsts st1 in
+  let name := tlit (cur t2) in
+  Independence.tops_run av sw ee pf (5 * Datatypes.length T + 4) TwinProgram.st0 T f1 st1 xs ->
+  ttype (cur xs) = SCRIPT ->
+  scope_modifier true xs = Parser.Ok (g, t1) ->
+  expect_peek IDENT t1 = Some t2 ->
+  expect_peek LBRACE t2 = Some t3 ->
+  TwinIf.nest2 av sw ee pf c name z bsz csz true [] [] (adv t3) ->
+  curis PORYSWITCH z = true ->
+  poryswitch_header sw ee z = Parser.Ok (scn, sv, ts1) ->
+  5 * Datatypes.length z <= F ->
+  parse_pory_cases av sw ee pf c F name bsz csz (cur ts1) ts1 [] = Parser.Ok (cases, ts2) ->
+  pory_select cases sv = Some (ss, imp') ->
+  advs ts1 (body ++ ra) ->
+  TwinParse.srun av sw ee pf c name bsz csz (body ++ ra) ss imp' ra ->
+  advs ra ts2 ->
+  curis RBRACE ra = true \/ curis IDENT ra = true \/ curis INT ra = true ->
+  csz = [] \/ TwinParse.LC ra (adv ts2) ->
+  parse_program av sw ee pf T = Parser.Ok p1 ->
+  forall (U : list token) (src' : text),
+  T = U ++ z ->
+  lex hl hd hs src' = U ++ body ++ adv ts2 ->
+  Compile.compile hl hd hs av sw ee fc font ml optimize mpath src = Compile.compile hl hd hs av sw ee fc font ml optimize mpath src'.
+Proof. exact TwinIf.twin_nested2_compile. Qed.
+Print Assumptions twin_nested2_compile.
+
